@@ -38,7 +38,10 @@ struct bg_adj *nondet_adjp(void);
 typedef struct { int v; } VLabel;         /* opaque user label (A-PARAM)      */
 typedef struct { char unused; } NoLabel;  /* BaseGraph::NoLabel               */
 typedef unsigned int EdgeMultiplicity;
-typedef long bg_real;
+/* A-REAL: EdgeWeight / long double as elements of the ring Z/2^64: the library only adds,
+   subtracts, multiplies and compares weights for equality in the classes under contract, and
+   floating point arithmetic has no undefined overflow to check */
+typedef unsigned long bg_real;
 typedef struct { VertexIndex first, second; } bg_edge; /* std::pair<VI,VI> */
 typedef struct {
   bg_size len; /* list::size()                                   */
